@@ -9,15 +9,12 @@ commands
         -> {"request":{...}, "result": {...}|null, "exc":[cls,msg]|null, "data": executed data, "obs": {...},
             "corruptions": [...]}
   {"cmd":"eval","code": "..."}  -> {"value": repr}   (small probes by property modules; code sees `pkg`, `mods`)
-<<<<<<< HEAD
   {"cmd":"call_args","method":py_name,"args":{kw: encoded},"intended":{var: json}}   (C03/C07)
         -> {"request", "exc", "sent": {"coerced"|"errors","rec"}, "intended": {...}, "log_construct", "log_call"}
-=======
   "call" with "frag_map": {result class name: [fragment class names]} additionally walks the returned object and
         the response in parallel (C08): every object of a listed class must be an instance of each fragment class
         (looked up in the fragments module) and that class alone must validate the same sub-payload
         -> "frag": {"checked": n, "problems": [...]}
->>>>>>> c08c09
 
 The reference executor is graphql-core `execute_sync` on the query text the client SENT, with resolvers scripted
 by a plan: {"k": int (rotates runtime types at abstract positions), "null": float prob, "lens": [list lengths],
